@@ -33,7 +33,8 @@ ASSUMPTIONS = [
     "object addresses printed by FROZENSET nodes (a recorded C05 finding) are normalised before comparing text",
 ]
 
-EXTRA = [b"(I1\nI2\nd(I3\nI4\nu.", b"czqv\nf\n)R(K\x01K\x02u.", b"czqv\nf\n)RK\x01K\x02s.", b"]czqv\nf\n)Ra.",
+EXTRA = [b"0.", b"h\x05.", b"cos\nsystem\n0N\x90.",          # parse but cannot be interpreted: every view must keep raising
+         b"(I1\nI2\nd(I3\nI4\nu.", b"czqv\nf\n)R(K\x01K\x02u.", b"czqv\nf\n)RK\x01K\x02s.", b"]czqv\nf\n)Ra.",
          b"cos\nsystem\n(S'id'\ntRcposix\nsystem\n(S'x'\ntR\x86.", b"czqv\nf\nczqv\ng\nczqv\nh\n\x87.",
          b"\x80\x04\x80\x04N.", b"(S'k'\nI1\nS'j'\nI2\nd.", b"c__builtin__\neval\n(S'1'\ntR0c__builtin__\nexec\n(S'2'\ntR."]
 # pairs that share an attribute name between a stdlib module and a non-stdlib one / builtins: state kept per *name*
